@@ -97,8 +97,13 @@ pub fn scenario(u: &Unit) -> String {
         ob("same-annual-structure", f());
         return "ok".into();
     }
+    // the renewable ratios are quotients ren / (ren + nren): roundings of the (re-associated) annual sums are
+    // magnified by 1 / |total|, which exported energy can bring arbitrarily close to zero (same conditioning as in C14)
+    let tot = (a.balance.we.b.ren + a.balance.we.b.nren).abs_();
     for (x, y) in annual_a.iter().zip(annual_b.iter()) {
-        ob_via(&format!("annual{}", x.0), "same-term", x.1.ident(y.1), x.1.approx(y.1, 64.0 * (n * m) as f32, mag + x.1.abs_()));
+        let is_ratio = x.0.ends_with(".rer") || x.0.ends_with(".rer_nrb") || x.0.ends_with(".rer_onst");
+        let m_tol = if is_ratio { (k(4.0) * mag * (k(1.0) + x.1.abs_())) / tot } else { mag + x.1.abs_() };
+        ob_via(&format!("annual{}", x.0), "same-term", x.1.ident(y.1), x.1.approx(y.1, 64.0 * (n * m) as f32, m_tol));
     }
     // per-step vectors follow the permutation / subdivision
     for (nm, x) in la.iter().filter(|x| !annual(&x.0)) {
